@@ -79,7 +79,7 @@ def run_failing(scen: dict, sched: list[dict], storage, entry: str, fail: dict) 
         build.GATE = None
         shutil.rmtree(tmp, ignore_errors=True)
     recorded = [(e["e"], e["f"], json.dumps(dict(e["kwargs"]), sort_keys=True)) for e in evs if e["e"] in ("call", "ret", "fail")]
-    followed = entry == "seq" or (recorded == script.items and script.finished())
+    followed = entry == "seq" or (recorded[: len(script.items)] == script.items and script.finished())
     return {"desc": scen["desc"], "inputs": scen["inputs"], "ev": evs, "storage": storage, "entry": entry,
             "followed": followed, "stuck": script.stuck or "", "script": sched, "snap": snap, "hang": hang}
 
